@@ -211,10 +211,18 @@ class BatchLoader(LoaderBase):
     ) -> DaskArrayList:
         """Construct batch loading tasks."""
         _backend = backend or Backend()
-        return DaskArrayList.concat(
-            loader.construct_loading_tasks(output_shape=output_shape, backend=_backend)
-            for loader in self.loaders
-        )
+        image_ids = self.molecules.features[IMAGE_ID_LABEL]
+        tasks: list[da.Array | None] = [None] * len(image_ids)
+        for loader in self.loaders:
+            # tasks of each tomogram must be put back to the molecule order
+            image_id = loader.molecules.features[IMAGE_ID_LABEL][0]
+            indices = (image_ids == image_id).arg_true()
+            loader_tasks = loader.construct_loading_tasks(
+                output_shape=output_shape, backend=_backend
+            )
+            for i, task in zip(indices, loader_tasks):
+                tasks[i] = task
+        return DaskArrayList(tasks)  # type: ignore
 
 
 class LoaderAccessor:
